@@ -313,7 +313,7 @@ Proof.
   assert (Hs2 : sound ppt ms (cr_prebalance r)).
   { assert (I : abs_inv ppt ms (drop ppt ms st0, None))
       by (split; simpl; [apply drop_sound; auto | discriminate]).
-    apply (abs_run_inv _ _ _ _ _ I (ctl_assigns_abs _ _ _ _ _ None E2)). }
+    apply (proj1 (abs_run_inv _ _ _ _ _ I (ctl_assigns_abs _ _ _ _ _ None E2))). }
   rewrite (abs_run_app _ _ _ _ _ _
              (ctl_reassigns_abs _ _ _ _ _ _ _ _ _ (Some (cr_prebalance r)) Hprev Hs2 E3)).
   rewrite Er, Ef. destruct obs; reflexivity.
@@ -330,17 +330,56 @@ Proof.
   assert (I : abs_inv ppt ms (drop ppt ms st0, None))
     by (split; simpl; [apply drop_sound; auto | discriminate]).
   assert (Hs2 : sound ppt ms (cr_prebalance r))
-    by apply (abs_run_inv _ _ _ _ _ I (ctl_assigns_abs _ _ _ _ _ None E2)).
+    by apply (proj1 (abs_run_inv _ _ _ _ _ I (ctl_assigns_abs _ _ _ _ _ None E2))).
   assert (Hc2 : complete ppt ms (cr_prebalance r)) by (apply complete_b_spec; auto).
   pose proof (ctl_reassigns_abs _ _ _ _ _ _ _ _ _ None Hprev Hs2 E3) as A3.
   assert (Hs3 : sound ppt ms st3).
   { assert (I2 : abs_inv ppt ms (cr_prebalance r, None)) by (split; simpl; auto; discriminate).
-    apply (abs_run_inv _ _ _ _ _ I2 A3). }
+    apply (proj1 (abs_run_inv _ _ _ _ _ I2 A3)). }
   assert (Hc3 : complete ppt ms st3).
   { assert (I2 : abs_cinv ppt ms (cr_prebalance r, None)) by (split; simpl; auto; discriminate).
     refine (proj1 (abs_run_cinv _ _ _ _ _ _ I2 A3)).
-    apply Forall_forall. intros o Ho. apply in_map_iff in Ho. destruct Ho as [? [<- _]]. exact I0. }
+    apply Forall_forall. intros o Ho. apply in_map_iff in Ho. destruct Ho as [? [<- _]]. simpl. exact Logic.I. }
   assert (V2 : valid ppt ms (cr_prebalance r)) by (apply sound_complete_valid; auto).
   assert (V3 : valid ppt ms st3) by (apply sound_complete_valid; auto).
   rewrite Ef, Eb. destruct obs; auto.
+Qed.
+
+(* ------------------------------------------------------------------ the assign loop *)
+Lemma least_loaded_some : forall st cs, cs <> [] -> exists c, least_loaded st cs = Some c.
+Proof.
+  intros st [|a r] H; [congruence|]. simpl.
+  destruct (least_loaded st r) as [b|]; [destruct (less_loaded st b a)|]; eauto.
+Qed.
+
+(* c14_sticky_valid, part 3: if the list handed to the assign loop contains every assignable
+   partition that has no owner yet, no assignable partition is left without an owner *)
+Theorem assign_loop_complete : forall ppt ms xs st, ids_nodup ms ->
+  (forall x, assignable ppt ms x -> (exists m, In (m, x) st) \/ In x xs) ->
+  complete ppt ms (assign_loop ppt ms st xs).
+Proof.
+  induction xs as [|x r IH]; simpl; intros st Hi H.
+  - intros y Hy. destruct (H y Hy) as [Ho|[]]. auto.
+  - destruct (owner st x) as [m|] eqn:Eo.
+    + apply IH; auto. intros y Hy. destruct (H y Hy) as [Ho|[->|Hin]]; auto.
+      left. exists m. apply owner_some_In; auto.
+    + destruct (least_loaded st (potentials ppt ms x)) as [c|] eqn:El.
+      * apply IH; auto. intros y Hy. destruct (H y Hy) as [[m Hm]|[->|Hin]]; auto.
+        -- left. exists m. apply in_app_iff; auto.
+        -- left. exists c. apply in_app_iff. right. simpl; auto.
+      * apply IH; auto. intros y Hy. destruct (H y Hy) as [Ho|[->|Hin]]; auto.
+        exfalso. apply potentials_nonempty in Hy; auto.
+        destruct (least_loaded_some st _ Hy) as [c Hc]. congruence.
+Qed.
+
+(* the loop is a sequence of StickyCtl-accepted (hence StickyAbs) Assign steps *)
+Lemma assign_loop_is_ctl : forall ppt ms xs st,
+  exists l, ctl_assigns ppt ms st l = Some (assign_loop ppt ms st xs).
+Proof.
+  induction xs as [|x r IH]; simpl; intros st.
+  - exists []. reflexivity.
+  - destruct (owner st x) as [m|] eqn:Eo; [apply IH|].
+    destruct (least_loaded st (potentials ppt ms x)) as [c|] eqn:El; [|apply IH].
+    destruct (IH (st ++ [(c, x)])) as [l Hl]. exists ((x, c) :: l). simpl.
+    rewrite Eo, El. simpl. rewrite Nat.eqb_refl. exact Hl.
 Qed.
